@@ -170,5 +170,11 @@ pub fn gen(ctx: &mut Ctx) {
         if i % 29 == 3 { extra.push_str(" sign=R"); }
         extra.push_str(&format!(" children={}", if ctx.thorough { 4 } else { 2 }));
         ctx.req(&format!("repro {}{}", cfg, extra));
+        if i % 16 == 5 {
+            // the same configuration with a source date that cannot be represented (before 1970)
+            let toks: Vec<&str> = cfg.split(' ').collect();
+            let before = 1 + ctx.rng.below(100_000);
+            ctx.req(&format!("repro {} sdneg={} now=1700000000 children=0", toks.join(" "), before));
+        }
     }
 }
